@@ -1,5 +1,193 @@
-import Kap.Spec.C18
+/-
+C18 — property theorems (every `theorem` here is a proof obligation, axiom-audited by `bin/check C18`).
+Helper lemmas: Kap/Proofs/C18.lean.
+
+Statement (properties.jsonl): a stream or batch recording, when replayed, delivers to the task the same sequence of
+points/batches that was recorded: same database, retention policy, measurement, tags, field names, field values and
+field types, group and order, with timestamps either identical (recorded-time replay) or all shifted by one constant
+offset, and the replay ends after the last recorded item.
+
+The executable statement of the property is `specStream` / `specBatch` (Kap/Spec/C18.lean). The theorems say that the
+MODEL of the code (Kap/Model/C18.lean, tied to /repo by the correspondence run) satisfies it
+  * for streams: for every list of points whose frames are clean (no line feed in any component, no carriage return at
+    the end of a component, below the scanner's token limit) — given the external line-protocol law `LPLaw`;
+  * for batches: for EVERY list of batches, relative to the input rewritten by exactly the three recorded deviations.
+-/
+import Kap.Proofs.C18
 namespace Kap.Props.C18
 open Kap.C18
+
+/-! ### Stream framing (`WritePointForRecording` / `readPointsFromIO`'s Scanner loop) -/
+
+/-- **framing_roundtrip (⇐)**: frames with clean components are read back exactly, without error. -/
+theorem framing_roundtrip (fs : List Frame) (h : ∀ f ∈ fs, f.clean) :
+    readFrames maxTok (writeFrames fs) = (fs, true) :=
+  readFrames_writeFrames fs h
+
+/-- Full statement: the framing round-trips IF AND ONLY IF every component is clean. Only (⇐) is proved in general
+(`framing_roundtrip`); (⇒) is shown on witnesses below (each way of being unclean breaks the round trip). -/
+def framing_roundtrip_iff_stmt : Prop :=
+  ∀ fs : List Frame, readFrames maxTok (writeFrames fs) = (fs, true) ↔ ∀ f ∈ fs, f.clean
+
+/-- Counterexample (finding `stream-newline-framing`): a line feed inside the line (a string field `s="a\nb"`)
+splits the record: the reader sees 4 lines, i.e. one frame with a truncated line and an incomplete second frame. -/
+theorem framing_newline_breaks :
+    ∃ f : Frame, readFrames maxTok (writeFrames [f]) ≠ ([f], true) ∧
+      readFrames maxTok (writeFrames [f]) = ([⟨f.db, f.rp, [109, 32, 115, 61, 34, 97]⟩], false) :=
+  ⟨⟨[100], [114], [109, 32, 115, 61, 34, 97, 10, 98, 34, 32, 49]⟩, by decide, by decide⟩
+
+/-- Counterexample: a line feed in the database name shifts every following component by one line and the
+reader silently delivers a frame with the wrong database, retention policy and line. -/
+theorem framing_newline_in_db_reframes :
+    readFrames maxTok (writeFrames [⟨[97, 10, 98], [114], [109, 32, 118, 61, 49, 32, 53]⟩, ⟨[100], [114], [109, 32, 118, 61, 50, 32, 54]⟩]) =
+      ([⟨[97], [98], [114]⟩, ⟨[109, 32, 118, 61, 49, 32, 53], [100], [114]⟩], false) := by
+  decide
+
+/-- Counterexample: a carriage return at the end of the database name is dropped by the Scanner. -/
+theorem framing_trailing_cr_dropped :
+    readFrames maxTok (writeFrames [⟨[100, 13], [114], [109]⟩]) = ([⟨[100], [114], [109]⟩], true) := by
+  decide
+
+/-! ### Stream record → replay -/
+
+/-- **Stream replay is faithful** (db, rp, measurement, tags, field names, values and TYPES, group, order, times
+identical or one offset, closed once after the last point): for every list of points with clean frames, every clock
+zero, both clock modes — given the external line-protocol law for these points (precision ns, as the replay service
+uses). -/
+theorem stream_replay_faithful (F : FloatCodec) (zero : Int) (recTime : Bool) (ps : List SPoint)
+    (G : List (Bytes × Bool × List Bytes))
+    (hlaw : LPLaw F 1 ps) (hclean : ∀ p ∈ ps, (frameOf F 1 p).clean) :
+    specStream recTime ps G (sObs (streamRoundTrip F 1 zero recTime ps) G) = none := by
+  have hr := readStream_record F 1 ps hlaw hclean
+  have hid : ps.map (fun p => { p with time := p.time.tdiv 1 * 1 }) = ps := by
+    conv => rhs; rw [← List.map_id ps]
+    apply List.map_congr_left; intro p _; simp
+  rw [hid] at hr
+  unfold streamRoundTrip
+  rw [hr]
+  exact specStream_replay zero recTime ps G
+
+/-! Non-vacuity: the hypotheses of `stream_replay_faithful` hold of concrete awkward points — database `my db`,
+measurement `a,b c`, tag `k=1`=`v 2`, fields: float 1.5, int 2^53+1, string `q"\, x=é`, bool — with the model's own
+parser (so `LPLaw` is not an empty assumption), and the conclusion is then the full spec. -/
+
+/-- `strconv` restricted to the one float of the example. -/
+def exF : FloatCodec :=
+  { fmt := fun b => if b = 0x3ff8000000000000 then [49, 46, 53] else [],
+    parse := fun s => if s = [49, 46, 53] then some 0x3ff8000000000000 else none }
+
+def exP1 : SPoint :=
+  ⟨[109, 121, 32, 100, 98], [114, 112], [97, 44, 98, 32, 99], [([107, 61, 49], [118, 32, 50])],
+   [([102], .float 0x3ff8000000000000), ([105], .int 9007199254740993),
+    ([115], .str [113, 34, 92, 44, 32, 120, 61, 195, 169]), ([116], .bool true)], 1500000000000000000⟩
+
+def exP2 : SPoint := ⟨[100], [114], [109], [], [([118], .int (-7))], 1500000000000000005⟩
+
+example : LPLaw exF 1 [exP1, exP2] ∧ (∀ p ∈ [exP1, exP2], (frameOf exF 1 p).clean) := by
+  unfold LPLaw; decide
+
+example : specStream false [exP1, exP2] [] (sObs (streamRoundTrip exF 1 42 false [exP1, exP2]) []) = none ∧
+    ((streamRoundTrip exF 1 42 false [exP1, exP2]).items.map (·.p.time)) = [42, 47] := by
+  decide
+
+/-- **shift_is_constant (stream)**: whatever was read from the recording, each delivered point is the read point with
+time `t` (recorded-time mode) or `t + (zero − first)` (otherwise), the clock is asked to wait until
+`t + (zero − first)` in both modes, and nothing else about the point changes. -/
+theorem stream_shift_is_constant (zero : Int) (recTime : Bool) (ps : List SPoint) :
+    replayStream zero recTime ps =
+      ps.map (fun p =>
+        ⟨if recTime then p else { p with time := p.time + (zero - (ps.head?.map (·.time)).getD 0) },
+         p.time + (zero - (ps.head?.map (·.time)).getD 0)⟩) :=
+  replayStream_eq zero recTime ps
+
+/-- **replay_ends_after_last (stream)**: the replay delivers exactly one item per point read, in order, and the model
+closes the collector once, after all of them (the close is the `defer` of `replayStreamFromChan`). -/
+theorem stream_replay_ends_after_last (F : FloatCodec) (mult zero : Int) (recTime : Bool) (ps : List SPoint) :
+    let r := streamRoundTrip F mult zero recTime ps
+    r.closes = 1 ∧ r.closedAt = r.items.length ∧
+      r.items.length = (readStream F mult (record F mult ps)).1.length := by
+  simp [streamRoundTrip, replayStream, replayStreamGo_length]
+
+/-- A parse failure (or a broken frame) stops the reading, but everything read before it is still replayed
+faithfully and the replay then reports the error: prefix property used by the deviation clauses. -/
+theorem stream_error_reported (F : FloatCodec) (mult zero : Int) (recTime : Bool) (ps : List SPoint) :
+    (streamRoundTrip F mult zero recTime ps).status = (readStream F mult (record F mult ps)).2 := by
+  simp [streamRoundTrip]
+
+/-! ### Batches -/
+
+/-- **Batch replay is faithful except exactly the recorded deviations** — for EVERY list of batches, every clock zero,
+both clock modes: the deliveries of `WriteBatchForRecording` → `ReplayBatchFromIO` satisfy the property's spec
+(name, by-name, tags, group, dimensions, number/tags/field names/types/values of points, all timestamps incl. tmax
+identical or shifted by one offset, closed once after the last batch) relative to the input rewritten by
+`batch-int-as-float`, `batch-tagless-point-inherits`, `batch-empty-skipped` — each the identity where its clause
+does not apply. -/
+theorem batch_replay_faithful_except_known (zero : Int) (recTime : Bool) (bs : List Batch) :
+    specBatch recTime (batchDevs bs).2 (groupsOf (batchDevs bs).2) (bObs (batchRoundTrip true zero recTime bs)) = none :=
+  batchRoundTrip_spec zero recTime bs
+
+/-- The three rewrites are the identity exactly when no clause applies … -/
+theorem batch_no_deviation_identity (bs : List Batch) (h : (batchDevs bs).1 = []) : (batchDevs bs).2 = bs :=
+  batchDevs_id bs h
+
+/-- … hence **types_preserved_batch_partial**: for batches with no int64 field, no empty batch and no tagless point in
+a tagged batch, the replay is faithful to the RECORDED batches themselves. The excluded inputs are exactly the three
+findings; the unrestricted statement is false (`batch_int_becomes_float`). -/
+theorem batch_replay_faithful_partial (zero : Int) (recTime : Bool) (bs : List Batch) (h : (batchDevs bs).1 = []) :
+    specBatch recTime bs (groupsOf bs) (bObs (batchRoundTrip true zero recTime bs)) = none := by
+  have := batch_replay_faithful_except_known zero recTime bs
+  rwa [batch_no_deviation_identity bs h] at this
+
+/-- The unrestricted statement (false of the unchanged code, see the counterexamples). -/
+def batch_replay_faithful_stmt : Prop :=
+  ∀ (zero : Int) (recTime : Bool) (bs : List Batch),
+    specBatch recTime bs (groupsOf bs) (bObs (batchRoundTrip true zero recTime bs)) = none
+
+/-- Counterexample (finding `batch-int-as-float`): an int64 field comes back as a float64 — the spec fails at
+"same-field-types" — and beyond 2^53 with a different value: 9007199254740993 ↦ bits of 9007199254740992.0. -/
+theorem batch_int_becomes_float :
+    specBatch true [⟨[109], false, 10, [], [⟨[], [([118], .int 9007199254740993)], 5⟩]⟩] (groupsOf [⟨[109], false, 10, [], []⟩])
+      (bObs (batchRoundTrip true 0 true [⟨[109], false, 10, [], [⟨[], [([118], .int 9007199254740993)], 5⟩]⟩])) = some "same-field-types"
+    ∧ jsonFV (.int 9007199254740993) = .float 0x4340000000000000
+    ∧ jsonFV (.int 9007199254740992) = .float 0x4340000000000000 := by
+  decide
+
+/-- Counterexample (finding `batch-empty-skipped`). -/
+theorem batch_empty_is_dropped :
+    (batchRoundTrip true 0 true [⟨[109], false, 10, [], []⟩]).items = [] := by
+  decide
+
+/-- Counterexample (finding `batch-tagless-point-inherits`). -/
+theorem batch_tagless_point_inherits :
+    ((batchRoundTrip true 0 true [⟨[109], false, 10, [([104], [97])], [⟨[], [([118], .bool true)], 5⟩]⟩]).items.map
+      (fun o => o.b.points.map (·.tags))) = [[[([104], [97])]]] := by
+  decide
+
+/-- **shift_is_constant (batch)**: every delivered batch is the read batch with all point times shifted by
+`zero − (first point of the first batch)` (or kept, in recorded-time mode); the clock waits until the shifted last point. -/
+theorem batch_shift_is_constant (zero : Int) (recTime : Bool) (bs : List Batch) :
+    (batchRoundTrip true zero recTime bs).items =
+      (readBatches bs).map (replayOne recTime (batchOffset zero (readBatches bs))) := by
+  simp [batchRoundTrip, replayBatchesGo_none]
+
+/-- **tmax is shifted with the points** (since the `fix:` commit): for a batch whose tmax is not before its points. -/
+theorem batch_tmax_shifted (recTime : Bool) (d : Int) (b : Batch) (hne : b.points ≠ []) (hwf : b.wfTmax = true) :
+    (replayOne recTime d b).b.tmax = if recTime then b.tmax else b.tmax + d :=
+  replayOne_tmax recTime d b hne hwf
+
+/-- Counterexample for the snapshot's rule (`shiftTmax = false`, before the `fix:`): points at 0 and 5, tmax 10,
+replayed at clock zero 100 ⇒ points 100 and 105 but tmax 105 instead of 110: not one offset. -/
+theorem batch_tmax_not_shifted_before_fix :
+    (replayBatchesGo false 100 false none [⟨[109], false, 10, [], [⟨[], [], 0⟩, ⟨[], [], 5⟩]⟩]).map (fun o => (o.b.points.map (·.time), o.b.tmax))
+      = [([100, 105], 105)]
+    ∧ (replayBatchesGo true 100 false none [⟨[109], false, 10, [], [⟨[], [], 0⟩, ⟨[], [], 5⟩]⟩]).map (fun o => (o.b.points.map (·.time), o.b.tmax))
+      = [([100, 105], 110)] := by
+  decide
+
+/-- **replay_ends_after_last (batch)**. -/
+theorem batch_replay_ends_after_last (zero : Int) (recTime : Bool) (bs : List Batch) :
+    let r := batchRoundTrip true zero recTime bs
+    r.status = .ok ∧ r.closes = 1 ∧ r.closedAt = r.items.length ∧ r.items.length = (readBatches bs).length := by
+  simp [batchRoundTrip, replayBatchesGo_none]
 
 end Kap.Props.C18
